@@ -102,6 +102,9 @@ type scriptVal struct {
 	Want interface{}
 	// Identity: the value has reference identity (pointer, func) - Want is not compared deeply
 	Identity bool
+	// Go: the value is bound from Go with env.Define (a Go value a script holds
+	// in a variable and passes on: float32 cannot be made by a script)
+	Go bool
 }
 
 const bigInt = int64(1)<<40 + 5
@@ -115,6 +118,18 @@ var scriptVals = []scriptVal{
 	{Name: "v_neg", Src: `v_neg = -3`, Want: int64(-3)},
 	{Name: "v_f", Src: `v_f = 3.0`, Want: float64(3)},
 	{Name: "v_fr", Src: `v_fr = 2.5`, Want: float64(2.5)},
+	// floats at and beyond the edges of the integer types: 1e19 and 2^63+2^11 fit
+	// uint64 but not int64, 2^64 fits no integer type, 3e9 fits no 32-bit signed
+	// one, 2.5e5 no 16-bit one, -1.5 no unsigned one
+	{Name: "v_f1e19", Src: `v_f1e19 = 10000000000000000000.0`, Want: float64(1e19)},
+	{Name: "v_f2p64", Src: `v_f2p64 = 18446744073709551616.0`, Want: float64(18446744073709551616.0)},
+	{Name: "v_f2p63", Src: `v_f2p63 = 9223372036854777856.0`, Want: float64(9223372036854777856.0)},
+	{Name: "v_fneg", Src: `v_fneg = -1.5`, Want: float64(-1.5)},
+	{Name: "v_f3e9", Src: `v_f3e9 = 3000000000.0`, Want: float64(3e9)},
+	{Name: "v_f25e4", Src: `v_f25e4 = 250000.0`, Want: float64(2.5e5)},
+	{Name: "g_f32", Go: true, Want: float32(2.5)},
+	{Name: "g_f32big", Go: true, Want: float32(1e19)},
+	{Name: "g_f32p63", Go: true, Want: float32(9223373136366403584.0)}, // 2^63+2^40
 	{Name: "v_s0", Src: `v_s0 = ""`, Want: ""},
 	{Name: "v_sa", Src: `v_sa = "a"`, Want: "a"},
 	{Name: "v_sab", Src: `v_sab = "ab"`, Want: "ab"},
@@ -151,7 +166,9 @@ func scriptValNames() []string {
 func prelude() string {
 	s := ""
 	for _, v := range scriptVals {
-		s += v.Src + "\n"
+		if !v.Go {
+			s += v.Src + "\n"
+		}
 	}
 	return s
 }
